@@ -149,6 +149,7 @@ type NodeOpt struct {
 	Txs               func(node, call int) types.Txs
 	Clock             func() int
 	Config            *cfg.ConsensusConfig
+	RealTicker        bool // keep the production timeout ticker (for nodes that are really Start()ed)
 }
 
 // NewNode assembles a node exactly like newStateWithConfigAndBlockStore in the
@@ -215,7 +216,9 @@ func (n *Node) build(genDoc *types.GenesisDoc, key crypto.PrivKey, opt NodeOpt) 
 		panic(err)
 	}
 	n.CS.SetEventBus(n.Bus)
-	n.Ticker = n.CS.VerifUseTicker()
+	if !opt.RealTicker {
+		n.Ticker = n.CS.VerifUseTicker()
+	}
 	if opt.WAL != nil {
 		n.CS.VerifSetWAL(opt.WAL)
 	}
